@@ -150,7 +150,7 @@ func GenC07(seed, index uint64) *Workload {
 		ntasks = 2 + r.Intn(3)
 		bigRun = true
 	}
-	famRun := !bigRun && r.P(1, 12)
+	famRun := !bigRun && r.P(1, 8)
 	if famRun {
 		// several clients inside the same built-in function with different arguments
 		fam := pick(r, FuncFamilies)
@@ -237,6 +237,10 @@ func GenC07(seed, index uint64) *Workload {
 		w.Tasks = append(w.Tasks, ops)
 	}
 	w.Sched = randSchedule(r, ntasks, 5)
+	if (famRun || storm) && r.P(1, 2) {
+		// these runs are about narrow windows next to shared state
+		w.Sched = simrt.Schedule{Kind: simrt.StratHotWalk, Seed: r.U64(), HotDen: pick(r, []uint64{2, 3}), WalkDen: pick(r, []uint64{512, 4096})}
+	}
 	return w
 }
 
